@@ -5,7 +5,7 @@ set_option linter.unusedVariables false
 # C17: what the PSF1 / PSF2 loaders accept and ignore (`load_psf1`, `load_psf2` of src/fonts.rs)
 
 * `glyphsFromU8_flat_tail` — the glyph loop takes every complete `h`-byte chunk and ignores a shorter rest;
-* `fromBytes_psf1` — a PSF1 file is never rejected: mode bit 0 picks the nominal length 256 / 512, every other mode bit
+* `fromBytes_psf1` — a PSF1 file is rejected only for character size 0 (repair of `BitFont::from_bytes`): mode bit 0 picks the nominal length 256 / 512, every other mode bit
   (HASTAB, HASSEQ) is ignored, and EVERYTHING behind the 4-byte header is cut into glyphs (a unicode table is read as
   further glyphs, missing glyphs are not noticed);
 * `fromBytes_psf2` — the PSF2 header fields: the exact acceptance condition and the result, for every value of every
@@ -57,12 +57,18 @@ theorem glyphsFromU8_flat_tail (h : Nat) (hh : 1 ≤ h) (gs : List (Option Glyph
   rw [if_neg (by omega)]
   exact glyphLoop_flat_tail h hh t ht gs hr 0 _ (by omega) (Nat.le_refl _)
 
-/-- **PSF1**: no check at all behind the magic number -/
-theorem fromBytes_psf1 (mode charsize : Nat) (rest : List Nat) :
+/-- **PSF1**: behind the magic number only the character size is checked (0 is rejected) -/
+theorem fromBytes_psf1 (mode charsize : Nat) (hcs : charsize ≠ 0) (rest : List Nat) :
     fromBytes (0x36 :: 0x04 :: mode :: charsize :: rest) =
       .ok { w := 8, h := charsize, length := if mode % 2 = 1 then 512 else 256, glyphs := glyphsFromU8 charsize rest } := by
   unfold fromBytes
-  simp [loadPsf1]
+  simp [loadPsf1, hcs]
+
+/-- a PSF1 header with character size 0 is not a font -/
+theorem fromBytes_psf1_zero (mode : Nat) (rest : List Nat) :
+    fromBytes (0x36 :: 0x04 :: mode :: 0 :: rest) = .err := by
+  unfold fromBytes
+  simp
 
 /-- a PSF2 file with arbitrary header fields -/
 def psf2File (version hs flags len cs height width : Nat) (body : List Nat) : List Nat :=
